@@ -9,6 +9,7 @@ from hypothesis import strategies as st
 
 from ..audio import _h
 from ..common import HarnessError, Violation, hyp_run, import_auditok, tmpdir
+from ..gen import rarely
 from ..oracles import block_model, exact_floor, exact_round
 
 import_auditok()
@@ -29,7 +30,7 @@ RULE = (
 )
 MUST_HIT = ["source_already_partly_consumed", "fractional_durations", "hop_lt_block_same_samples", "empty_visible_with_overlap", "over_reads", "overlap_3_blocks", "max_read_inside_block",
             "visible_shorter_than_block", "rejected", "kind_wav_lazy", "kind_raw_lazy", "kind_stdin", "kind_stdin_pipe",
-            "kind_raw_fifo"]
+            "kind_raw_fifo", "more_than_one_io_buffer"]
 ASSUMPTIONS = ["durations are passed as k/rate; where the exact product lies within 1e-9 of an integer either neighbour is accepted for block/hop size"]
 BOUNDS = {"quick": dict(n=1200, maxN=60), "thorough": dict(n=8000, maxN=400)}
 KINDS = ("bytes", "buffer", "raw_lazy", "wav_lazy", "stdin", "stdin_pipe", "raw_fifo")
@@ -175,10 +176,12 @@ def make_input(cfg, data):
         feeder = _FifoFeeder(path, data, [step + 1, max(step - 1, 1), 2, step + 2])
         return path, dict(params, large_file=True, audio_format="raw"), [feeder.finish, path]
     if kind == "raw_lazy":
-        path = stem + ".raw"
+        ext = cfg.get("rawname", ".raw")
+        path = stem + ext
         with open(path, "wb") as fp:
             fp.write(data)
-        return path, dict(params, large_file=True), [path]
+        extra = {} if ext == ".raw" else {"audio_format": "raw"}
+        return path, dict(params, large_file=True, **extra), [path]
     if kind == "wav_lazy":
         path = stem + ".wav"
         with wave.open(path, "wb") as fp:
@@ -314,6 +317,8 @@ def check_case(case, rec):
             classes.add("over_reads")
         if cfg.get("prepos") and cfg["kind"] == "buffer":
             classes.add("source_already_partly_consumed")
+        if len(data) > 8192:
+            classes.add("more_than_one_io_buffer")
         rec.note(case, nt, classes, out=[list(s) for s in spans])
     finally:
         cleanup(paths)
@@ -334,6 +339,9 @@ def explicit_cases():
         dict(base, kind="stdin_pipe", N=40, H=None),
         dict(base, kind="stdin_pipe", N=37, mr=[30, 0]),
         dict(base, kind="raw_fifo", N=41, H=None),
+        dict(base, kind="raw_lazy", rawname=".pcm", N=2500, B=127, H=None, sw=4, ch=3),
+        dict(base, kind="raw_lazy", rawname="", N=1800, B=333, H=100, sw=2, ch=3),
+        dict(base, kind="wav_lazy", N=2600, B=129, H=None, sw=2, ch=2, mr=[2000, 0.5]),
         dict(base, kind="raw_fifo", N=23, mr=[17, 0.5]),
         dict(base, H=2, fb=0.25, fh=0.75, kind="raw_lazy"),
         dict(base, reject="tiny_block"),
@@ -367,6 +375,15 @@ def strategy(draw, maxN):
     cfg["mr"] = draw(st.one_of(st.none(), st.tuples(st.integers(0, N + 10), st.sampled_from([0, 0.25, 0.5, 0.75])).map(list)))
     if cfg["kind"] == "buffer" and draw(st.booleans()):
         cfg["prepos"] = draw(st.integers(1, 9))
+    cfg["rawname"] = draw(st.sampled_from([".raw", ".raw", ".pcm", "", ".dat"]))
+    if cfg["kind"] in ("raw_lazy", "wav_lazy", "bytes") and draw(rarely(12)):
+        # more data than one 4096 / 8192-byte io buffer, block sizes that do not divide it
+        cfg["N"] = draw(st.integers(1500, 3000))
+        cfg["B"] = draw(st.sampled_from([7, 11, 100, 127, 129, 333, 1000]))
+        cfg["H"] = draw(st.one_of(st.none(), st.integers(1, cfg["B"])))
+        cfg["mr"] = draw(st.one_of(st.none(), st.tuples(st.integers(1000, 3100), st.sampled_from([0, 0.5])).map(list)))
+        cfg.pop("fb", None)
+        cfg.pop("fh", None)
     return cfg
 
 
